@@ -293,14 +293,15 @@ Section Rescan.
     separates_identifiers = true ->
     text_eqb s t_empty_literal = false ->
     parse1 s = Some e -> mt ctxmap raw_dates e = Some t -> scan_lits t = true ->
+    expression_size_ok s = true ->
     too_long ctxmap raw_dates (max_migrated_length s) e = false ->
     SP.nulfree (print3 t ++ f) ->
     let out := fst (migrate_seg ctxmap raw_dates false false printable isln lower_rune (SExpr s) f) in
     pscan (out ++ f) = (S.IDENTIFIER, print3 t, f) \/ pscan (out ++ f) = (S.EXPRESSION, print3 t, f).
   Proof.
-    intros s e t f Hflag Hne Hp Hm Hs Hcap Hnul. cbn zeta.
-    unfold migrate_seg, migrate_expression. rewrite Hne, Hp, (mt_no_errs ctxmap raw_dates e t Hm), Hcap. cbn [orb].
-    destruct (visit_mt ctxmap raw_dates e t Hm) as [Pv [W L]]. rewrite Pv. cbn [fst]. unfold wrap_raw.
+    intros s e t f Hflag Hne Hp Hm Hs Hsize Hcap Hnul. cbn zeta.
+    unfold migrate_seg, migrate_expression. rewrite Hne, Hsize, Hp, (mt_no_errs ctxmap raw_dates e t Hm), Hcap. cbn [orb negb].
+    destruct (visit_mt ctxmap raw_dates e t Hm) as [Pv [W L]]. rewrite Pv, (parse3_print3 t W L). cbn [fst]. unfold wrap_raw.
     pose proof (closed_print3 t L Hs) as Hclosed.
     destruct (is_valid_identifier (print3 t)) eqn:Ev.
     - destruct (separate_from_cases isln lower_rune (64 :: print3 t) f) as [E|E].
@@ -324,7 +325,50 @@ Section Rescan.
         rewrite !N.eqb_refl in E. cbn [andb] in E.
         apply (f_equal (@length N)) in E. cbn in E. rewrite !app_length in E. cbn in E. lia.
   Qed.
+
+  (* the same for an @identifier token whose migration is a canonically printed expression *)
+  Theorem rescan_identifier : forall n tr f,
+    separates_identifiers = true ->
+    canon (ctxmap n) = Some tr -> scan_lits tr = true ->
+    SP.nulfree (print3 tr ++ f) ->
+    let out := fst (migrate_seg ctxmap raw_dates false false printable isln lower_rune (SIdent n) f) in
+    pscan (out ++ f) = (S.IDENTIFIER, print3 tr, f) \/ pscan (out ++ f) = (S.EXPRESSION, print3 tr, f).
+  Proof.
+    intros n tr f Hflag Hc Hs Hnul. cbn zeta. apply canon_spec in Hc. destruct Hc as [E [W L]].
+    unfold migrate_seg. rewrite E. cbn [fst]. unfold wrap_raw.
+    pose proof (closed_print3 tr L Hs) as Hclosed.
+    destruct (is_valid_identifier (print3 tr)) eqn:Ev.
+    - destruct (separate_from_cases isln lower_rune (64 :: print3 tr) f) as [E'|E'].
+      + left. rewrite E'. cbn [app].
+        destruct (is_prefix [64; 40] (64 :: print3 tr)) eqn:Epre.
+        * exfalso. destruct (print3 tr) as [|c r] eqn:Ept; [cbn in Epre; discriminate|].
+          cbn [is_prefix] in Epre. rewrite N.eqb_refl in Epre. cbn [andb] in Epre.
+          apply andb_true_iff in Epre. destruct Epre as [Ec _]. apply N.eqb_eq in Ec. subst c.
+          cbn [is_valid_identifier] in Ev. change (uletter 40) with false in Ev. discriminate Ev.
+        * apply bare_identifier_rescans; try assumption. constructor; [discriminate|exact Hnul].
+      + right. rewrite E'. cbn [tl].
+        change ((64 :: 40 :: print3 tr ++ [41]) ++ f) with (64 :: 40 :: (print3 tr ++ [41]) ++ f).
+        rewrite <- app_assoc. apply parenthesized_rescans. exact Hclosed.
+    - right.
+      destruct (separate_from_cases isln lower_rune (64 :: 40 :: print3 tr ++ [41]) f) as [E'|E']; rewrite E'.
+      + change ((64 :: 40 :: print3 tr ++ [41]) ++ f) with (64 :: 40 :: (print3 tr ++ [41]) ++ f).
+        rewrite <- app_assoc. apply parenthesized_rescans. exact Hclosed.
+      + exfalso. unfold separate_from in E'. rewrite Hflag in E'. cbn [negb is_prefix] in E'.
+        rewrite !N.eqb_refl in E'. cbn [andb] in E'.
+        apply (f_equal (@length N)) in E'. cbn in E'. rewrite !app_length in E'. cbn in E'. lia.
+  Qed.
 End Rescan.
+
+(* the body clause at the scanner level is FALSE of the code (known finding body:new-toplevel-identifier-becomes-live):
+   the body text `mail @fields.n1 now` of a legacy template is copied unchanged (body_only), but the scanner of the new
+   syntax does not read it back as one body token: fields is a top level there *)
+Lemma body_rescan_refuted :
+  exists t, fst (migrate_template (fun n => lower n) false false false printable_approx isln_approx lower_cp [SBody t]) = t /\
+            SP.p_scan isln_approx lower_cp (Some run_top_levels) true t <> (S.BODY, t, []).
+Proof.
+  exists [109; 97; 105; 108; 32; 64; 102; 105; 101; 108; 100; 115; 46; 110; 49; 32; 110; 111; 119].
+  split; [reflexivity | vm_compute; discriminate].
+Qed.
 
 (* ---------------------------------------------------------------------------------------------- *)
 (* table obligation: the migrator separates identifiers from the text that follows (fix db33e56) *)
@@ -360,7 +404,7 @@ Definition hyp_seg2 (ctx : text -> text) (raw_dates : bool) (s : seg) : bool :=
       if text_eqb t t_empty_literal then true
       else match parse1 t with
            | Some e => match mt ctx raw_dates e with
-                       | Some tr => scan_lits tr && negb (too_long ctx raw_dates (max_migrated_length t) e)
+                       | Some tr => scan_lits tr && expression_size_ok t && negb (too_long ctx raw_dates (max_migrated_length t) e)
                        | None => false
                        end
            | None => false
